@@ -36,7 +36,7 @@
 From Coq Require Import String List Bool Arith.
 From KV Require Import Lib.Str Lib.StrOps Lib.ODict Gen.Tags Gen.Pipeline Model.Engine Model.EngineSM Model.EngineDomain Spec.RefExpand
                        Model.EngineDomain16 Model.Parse16 Spec.RefExpand16 Lib.TableDef Model.TTable
-                       Proofs.EngineStr Proofs.EnginePipe Proofs.EngineC16 Proofs.EngineRepl Proofs.EngineBlock Proofs.EngineTT Proofs.EngineTps Proofs.EngineTrans Proofs.EngineWhole16.
+                       Proofs.EngineStr Proofs.EnginePipe Proofs.EngineC16 Proofs.EngineRepl Proofs.EngineBlock Proofs.EngineTT Proofs.EngineTps Proofs.EngineTrans Proofs.EngineMsg Proofs.EngineWhole16.
 Import ListNotations.
 Open Scope string_scope.
 Open Scope list_scope.
@@ -143,6 +143,26 @@ Theorem C16_sig_block_is_ref : forall sigs body,
   inner_actionsigs sigs (map render_line body) None = Some (ref_block sig_table (map snd sigs) body).
 Proof. exact sig_block_is_ref. Qed.
 Print Assumptions C16_sig_block_is_ref.
+
+(* Per-message blocks with <<<MSGID>>> (MsgBlock; ids from the events interface: if_msgids, str(MessageTypeID)) and with text after the end
+   tag on its line (TEMPLATETransmitter.cpp: "<<<PER_MSG_END>>>   ").  The stage of PER_MSG blocks is innerexpand_secondfiltering_PROTO over
+   MessageNames(); the model (inner_msgs) replaces <<<MSGID>>> by the message's id when every message has one.  For every id table, every
+   message list whose names all have an id and every body of the grammar (message name tags, NUM / ALPH, MSGID): the expansion is the
+   reference block with the id in the table; and a body WITHOUT the id tag expands as before, whatever the ids are (so C16_block_is_ref for
+   KMsg is what the engine does there).  With MsgBlock the shipped TEMPLATEReceiver.cpp / TEMPLATETransmitter.cpp are whole files of the
+   grammar (Props/C13.v: C13_receiver_engine, C13_transmitter_engine). *)
+Theorem C16_msg_block_is_ref : forall ids items body,
+  forallb (fun n => ODict.mem String.eqb n ids) items = true ->
+  forallb (body_line_ok msg_keys) body = true -> block_wf (msg_table ids) items body = true ->
+  inner_msgs ids items (map render_line body) None = Some (ref_block (msg_table ids) items body).
+Proof. exact msg_block_is_ref. Qed.
+Print Assumptions C16_msg_block_is_ref.
+
+Theorem C16_plain_msg_block_is_ref : forall ids items body,
+  forallb (body_line_ok (keys_of KMsg)) body = true -> block_wf proto_table items body = true ->
+  inner_msgs ids items (map render_line body) None = Some (ref_block proto_table items body).
+Proof. exact plain_msg_block_is_ref. Qed.
+Print Assumptions C16_plain_msg_block_is_ref.
 
 (* PairExpander.Expand with the stage tags of the block's kind (the stage is in the list read from the source, with the
    inner function used here: stage_in_source): text before the block is kept, the block is replaced by the reference block,
